@@ -626,6 +626,11 @@ func (x *Exec) load(st *State, p *Pointer) *Value {
 	v := &Value{T: t, Typ: p.Typ}
 	if p.Kind == PField && len(p.Path) == 0 {
 		v.T = x.normFieldSlice(v.T, p.Typ)
+		if _, isSig := p.Typ.Underlying().(*types.Signature); isSig {
+			if stt, ok := structOf(p.Obj); ok {
+				v.Slot = x.slotName(p.Obj, stt.Field(p.Field).Name())
+			}
+		}
 	}
 	x.assumeTypeInv(st, v)
 	x.assumeAllocated(st, v)
